@@ -135,6 +135,16 @@ def build_inputs(tier):
             cases.append(("stdlib", st))
     for s in ["\u05e2\u05b4\u05d1 = 1\n", "x\u0301 = 2\n", "a\ufe0f = 3\n", "\u00e9\u0300t\u00e9 = caf\u00e9\n"]:
         cases.append(("kf-neighbourhood", s))  # identifiers with combining marks / variation selectors, and plain non-ASCII ones
+    # a backslash continuation INSIDE brackets, then a dedent / a blank or comment line / the end of the input
+    for body in ["y = (1 + \\\n         2)", "y = [1, \\\n  2, \\\n 3]", "f(a, \\\n  b)", "d = {1: \\\n 2}", "y = (1 + \\\n\\\n 2)"]:
+        for tail in ["\nz = 3\n", "\n\nz = 3\n", "\n# c\nz = 3\n", "\n", "", "\n  # indented comment\nz = 3\n"]:
+            cases.append(("continuation-in-brackets", "if x:\n    " + body + tail))
+            cases.append(("continuation-in-brackets", body + tail))
+            cases.append(("continuation-in-brackets", "def f():\n    if x:\n        " + body + "\n    return 1" + tail))
+    # identifiers that start with an ASCII letter and go on with non-ASCII letters / digits, and the reverse
+    for name in ["caf\u00e9", "na\u00efve", "gr\u00f6\u00dfe", "x\u0663", "se\u00f1or_1", "x_\u00e9", "x\u0394", "\u00e9t\u00e9", "\u0394x", "\u540d\u524d", "a\u00aa", "_\u00b5"]:
+        for ctx in ["{} = 1\n", "f({}, {}.attr)\n", "def {}(): pass\n", "import {} as z{}\n", "x = {}+{}\n"]:
+            cases.append(("nonascii-name", ctx.replace("{}", name)))
     seen = set()
     return [c for c in cases if not (c[1] in seen or seen.add(c[1]))]
 
